@@ -33,6 +33,10 @@ fn main() {
         run.floor(&format!("allocation_bursts:{b}"), 1);
     }
     run.floor("unknown_outcome_faults_fired", 20);
+    run.floor("fcc_recoveries_audited", 50);
+    run.floor("fcc_continued_on_live_handle", 10);
+    run.floor("fcc_watermark_write_targets", 4);
+    run.floor("motif_mutation_extension_flush", 20);
     run.floor("convergence_checks", 50);
     run.floor("recovered_states_audited", 1000);
     for k in ["add", "update", "remove", "flush", "reopen"] {
